@@ -391,14 +391,8 @@ func (s *subCheck[C]) eval(c C) Verdict {
 // written as a replay file and reported.
 func (s *subCheck[C]) rapidCheck(t *testing.T, checks int, gen func(*rapid.T) C) {
 	t.Helper()
-	flag.Set("rapid.checks", strconv.Itoa(checks))
-	defer func() {
-		if s.lastFail != nil {
-			path := writeReplay(s.pid, s.sub, s.lastFail, s.lastV)
-			violation(s.pid, path, s.lastV.Fail)
-			s.lastFail = nil
-		}
-	}()
+	flagSetChecks(checks)
+	defer s.flushRapid()
 	rapid.Check(t, func(rt *rapid.T) {
 		c := gen(rt)
 		v := s.eval(c)
@@ -406,6 +400,18 @@ func (s *subCheck[C]) rapidCheck(t *testing.T, checks int, gen func(*rapid.T) C)
 			rt.Fatalf("%s/%s: %s", s.pid, s.sub, v.Fail)
 		}
 	})
+}
+
+func flagSetChecks(n int) { flag.Set("rapid.checks", strconv.Itoa(n)) }
+
+// flushRapid reports the last (i.e. shrunk) failing case recorded by eval
+// during a rapid run, if any.
+func (s *subCheck[C]) flushRapid() {
+	if s.lastFail != nil {
+		path := writeReplay(s.pid, s.sub, s.lastFail, s.lastV)
+		violation(s.pid, path, s.lastV.Fail)
+		s.lastFail = nil
+	}
 }
 
 // one evaluates a single enumerated case; it returns false after reporting a
